@@ -57,29 +57,50 @@ def lemma_vcs(reg, lm):
     eng = sx.Engine("lemma::" + lm.name, _dummy_fn(), {}, None, reg, reg.specs)
     vcs = []
     vs, st, hyps, body = lemma_formula(eng, reg, lm)
-    prior = []
-    for other in lm.use_lemmas:
-        prior.append(lemma_as_axiom(reg, other))
-    if lm.induction is None:
-        vc = sx.VC("lemma.%s" % lm.name, "lemma", prior + hyps, body, "lemma::" + lm.name, note=lm.statement)
+    prior = [lemma_as_axiom(reg, other) for other in lm.use_lemmas]
+
+    def with_hints(hint_srcs, ctx_hyps, env):
+        """evaluate lemma calls under the given hypotheses: their preconditions become VCs, their statements facts"""
+        hst = sx.State(dict(env), dict(st.heap), list(ctx_hyps), None)
+        facts = []
+        eng.vcs = []
+        for h in hint_srcs:
+            facts.append(sx.to_bool(eng.evc(h, hst)))
+            hst.pc.append(facts[-1])
+        pre = eng.vcs
+        eng.vcs = []
+        for vc in pre:
+            vc.name = "lemma.%s.hint.%s" % (lm.name, vc.name)
+            vc.fn = "lemma::" + lm.name
+            vc.trivial = False
+        return facts, pre
+
+    def mk(name, h, g):
+        vc = sx.VC(name, "lemma", h, g, "lemma::" + lm.name, note=lm.statement)
         vc.trivial = False
-        vcs.append(vc)
+        return vc
+    if lm.induction is None:
+        facts, pre = with_hints(lm.hints, prior + hyps, st.env)
+        vcs += pre
+        vcs.append(mk("lemma.%s" % lm.name, prior + hyps + facts, body))
     else:
         k = st.env[lm.induction]
         base = sx.to_z3(eng.evc(lm.base, st))
+        env_b = dict(st.env)
+        env_b[lm.induction] = base
         _, _, hb, bb = lemma_formula(eng, reg, lm, {lm.induction: base})
-        vc = sx.VC("lemma.%s.base" % lm.name, "lemma", prior + hb, bb, "lemma::" + lm.name, note=lm.statement)
-        vc.trivial = False
-        vcs.append(vc)
+        facts, pre = with_hints(lm.base_hints, prior + hb, env_b)
+        vcs += pre
+        vcs.append(mk("lemma.%s.base" % lm.name, prior + hb + facts, bb))
         _, _, hs, bs = lemma_formula(eng, reg, lm, {lm.induction: k + 1})
         # induction hypothesis: the statement at k for ALL values of the other parameters
         others = [v for v in vs if not v.eq(k)]
         ih = z3.Implies(z3.And(*hyps + [z3.BoolVal(True)]), body)
-        ih = z3.ForAll(others, ih) if others else ih
-        vc = sx.VC("lemma.%s.step" % lm.name, "lemma", prior + [k >= base, ih, z3.Implies(z3.And(*hyps + [z3.BoolVal(True)]), body)]
-                   + hs, bs, "lemma::" + lm.name, note=lm.statement)
-        vc.trivial = False
-        vcs.append(vc)
+        ihq = z3.ForAll(others, ih) if others else ih
+        ctx = prior + [k >= base, ihq, ih] + hs
+        facts, pre = with_hints(lm.hints, ctx, st.env)
+        vcs += pre
+        vcs.append(mk("lemma.%s.step" % lm.name, ctx + facts, bs))
     return eng, vcs
 
 
